@@ -1,5 +1,10 @@
 """C10: annotated records survive the GenBank and the JSON round trip.
 
+Stream (f), fourth round: optional qualifiers against the model (fn 16-21: `is not None` pattern of evalue / score / SMILES /
+polymer / codon_start, truthiness pattern of database / detection / label), and in the whole-record stream every
+qualifier-backed attribute of every domain class, prepeptides and candidate structures drawn from pools of falsy-but-valid
+values (0, 0.0, -0.0, '', [], smallest / largest floats, ints where floats are stored) and compared type-exactly (exact()).
+
 Five streams ((e) read path of single features through Record.from_biopython - misc_feature prefilter, location_bridges_origin
 with / without allow_reversing, add_gene's exon order - and the order of CDS features through add_cds_feature: fn 13-15, see
 read_path_cases)
@@ -20,6 +25,7 @@ suppressed: their witnesses form the regression corpus (regression_corpus, ASTOO
 """
 import io
 import json as pyjson
+import os
 import re
 
 import common
@@ -926,6 +932,8 @@ def gen_whole_record(rng, counts):
         except Exception as exc:  # pylint: disable=broad-except
             counts["gen_sub_" + type(exc).__name__] += 1
     enrich(rng, record, genes, counts, n, circular)
+    add_exact_annotations(rng, record, genes, counts)
+    add_prepeptides(rng, record, n, counts, genes)
     add_alternative_transcripts(rng, record, n, circular, counts, genes)
     add_generic_features(rng, record, n, circular, counts, genes)
     return record
@@ -946,8 +954,8 @@ def enrich(rng, record, genes, counts, n, circular):
     for g in genes:
         try:
             if rng.random() < 0.35:
-                doms = [SecMetQualifier.Domain(name, rng.choice([1e-20, 3.5e-07, 0.0, 2.2e-150, 1.0]),
-                                               rng.choice([150.3, 20.0, 1234.5, 0.1]), rng.choice([0, 1, 12, 400]),
+                doms = [SecMetQualifier.Domain(name, rng.choice([1e-20, 3.5e-07, 0.0, 2.2e-150, 1.0, -0.0, 5e-324, 1e-300]),
+                                               rng.choice([150.3, 20.0, 1234.5, 0.1, 0.0, -0.0, 1e300, 7]), rng.choice([0, 1, 12, 400]),
                                                "rule-based-clusters")
                         for name in rng.sample(["PKS_KS", "AMP-binding", "Condensation_LCL", "mod_KS", "PP-binding"],
                                                rng.choice([1, 2, 3]))]
@@ -1044,6 +1052,185 @@ def enrich(rng, record, genes, counts, n, circular):
                 counts["subregion_awkward_label"] += 1
         except Exception as exc:  # pylint: disable=broad-except
             counts["gen_sideload_" + type(exc).__name__] += 1
+
+
+# ---------------------------------------------------------------- (c3) falsy but valid attribute values
+
+# e-values: AntismashFeature writes f"{evalue:.2E}", so only values that format keeps can come back at all (three
+# significant digits: the precision of the qualifier, stated as generator rule); among them the falsy and the extreme ones
+EVALUE_POOL = [0.0, -0.0, 5e-324, 1e-300, 2.5e-250, 3.1e-120, 9.99e-100, 1e-05, 1.0, 12.0, 1.23e+45, 1e300, None, None]
+# scores: str(float) keeps every float; integers that look like floats (the setter converts), zeros, tiny, huge, negative
+SCORE_POOL = [0.0, -0.0, 0, 5, 5.0, 150.3, 1480.2, -12.5, 5e-324, 1e-300, 1e300, 1e16, 123456789.125, None, None]
+# free text of database / detection: quotes, ': ', '=', ';', brackets, longer than a GenBank line (58 characters of
+# qualifier text) so that it is wrapped; tokens up to 40 characters, single inner blanks, no leading / trailing blank
+# (Biopython's wrapping does not keep those: rule (v)); the empty string is class C10-F66, drawn only in the codec stream
+TEXT_POOL = ['say "hi"', "it's", "Pfam-A 35.0", "hmmscan", "a: b", "x=y;z", "(a) [b] {c} <d>", "50% of /it/", "0", "0.0", "None",
+             "False", "a rather long database description that does not fit on one line of a GenBank file at all",
+             "one two three four five six seven eight nine ten eleven twelve thirteen fourteen", None, None]
+# identifiers (label, domain_id suffix): the reader removes blanks on purpose (GenBank wrapping), so no blanks; up to 70
+# characters (wrapped and re-joined)
+LABEL_POOL = ["PKSI-KS_m1", "0", "x", "A" * 59, "label_" + "y" * 64, "a:b", "it's", "q=1;r=2", None, None]
+TRANSLATION_POOL = ["M", "MA", "MKT" * 25, "ACDEFGHIKLMNPQRSTVWY" * 4 + "X", None]
+ASF_POOL = ["active site cysteine present", "found motif: C-x(2)-C (scaffold: yes)", "0",
+            "KR domain putatively catalyzing D-configuration product formation"]
+SUBTYPE_POOL = [[], ["Trans-AT-KS"], ["Iterative-KS", "Enediyne-KS"], ["0"]]
+SPECIFICITY_POOL = [[], ["consensus: mal"], ["KR activity: inactive", "KR stereochemistry: (unknown)"], ["0"], ["x" * 40, "a: b: c"]]
+
+
+def kept_by_evalue_format(value):
+    return value is None or repr(float(f"{value:.2E}")) == repr(float(value))
+
+
+def add_exact_annotations(rng, record, genes, counts):
+    """ domain annotations of every class the reader distinguishes (PFAMDomain, AntismashDomain and its registered
+        variants ModularDomain / TIGRDomain / RREDomain, CDSMotif) whose qualifier-backed attributes are drawn from the
+        pools above: 0.0, -0.0, the smallest and very large floats, integers given where floats are stored, '0', 'None',
+        'False' as texts, quotes, texts longer than a GenBank line, empty lists - next to ordinary values and None """
+    from antismash.common.secmet.features import AntismashDomain, CDSMotif, PFAMDomain
+    from antismash.common.secmet.locations import FeatureLocation as FL
+    from antismash.detection.nrps_pks_domains.modular_domain import ModularDomain
+    from antismash.detection.tigrfam.tigr_domain import TIGRDomain
+    from antismash.modules.rrefinder.rre_domain import RREDomain
+    serial = 0
+    for g in genes:
+        plen = len(g.location) // 3
+        if plen < 6 or g.location.crosses_origin() or rng.random() < 0.4:
+            continue
+        for _ in range(rng.choice([1, 2, 3])):
+            serial += 1
+            try:
+                a = rng.randint(0, plen - 2)
+                b = rng.randint(a + 1, plen)
+                loc = g.get_sub_location_from_protein_coordinates(a, b)
+                name = g.get_name()
+                kind = rng.choice(["pfam", "asdomain", "modular", "tigr", "rre", "motif"])
+                if kind == "pfam":
+                    dom = PFAMDomain(loc, rng.choice(["desc", 'a "quoted" description', "0"]), FL(a, b),
+                                     rng.choice(["PF00109", "PF00109.1", "PF13193.35"]), "full_hmmer", name,
+                                     domain=rng.choice([None, "ketoacyl-synt", "0"]))
+                elif kind == "asdomain":
+                    dom = AntismashDomain(loc, rng.choice(["demo_domains", "t"]), FL(a, b), name,
+                                          domain=rng.choice([None, "PKS_KS", "0"]))
+                elif kind == "modular":
+                    dom = ModularDomain(loc, FL(a, b), name)
+                    dom.domain = rng.choice(["PKS_KS", "PKS_AT", "AMP-binding"])
+                    dom.subtypes = list(rng.choice(SUBTYPE_POOL))
+                    dom.specificity = list(rng.choice(SPECIFICITY_POOL))
+                elif kind == "tigr":
+                    dom = TIGRDomain(loc, rng.choice(["desc", "0", "TIGR: a 'description'"]), FL(a, b), "TIGR00001", name,
+                                     domain=rng.choice(["dom", "0"]))
+                elif kind == "rre":
+                    dom = RREDomain(loc, rng.choice(["desc", "0"]), FL(a, b), rng.choice(["RREFam005.1", "RREFam001.12"]), name,
+                                    domain=rng.choice(["Lanthipeptide_RRE", "0"]))
+                else:
+                    dom = CDSMotif(loc, name, FL(a, b), tool=rng.choice(["demo_motifs", "t"]))
+                dom.domain_id = f"ex{serial}_{kind}_{name}_{a}_{b}" + rng.choice(["", "", "_" + "z" * 50])
+                evalue = rng.choice(EVALUE_POOL)
+                if evalue is not None:
+                    assert kept_by_evalue_format(evalue), evalue
+                    dom.evalue = evalue
+                score = rng.choice(SCORE_POOL)
+                if score is not None:
+                    dom.score = score
+                dom.label = rng.choice(LABEL_POOL)
+                dom.database = rng.choice(TEXT_POOL)
+                dom.detection = rng.choice(TEXT_POOL)
+                translation = rng.choice(TRANSLATION_POOL)
+                if translation is not None:
+                    dom.translation = translation
+                for _k in range(rng.choice([0, 0, 1, 2])):
+                    dom.asf.add(rng.choice(ASF_POOL))
+                if rng.random() < 0.2:
+                    dom.notes.append(rng.choice(["0", "a note", "evalue=0.0"]))
+                if kind == "pfam":
+                    record.add_pfam_domain(dom)
+                elif kind == "motif":
+                    record.add_cds_motif(dom)
+                else:
+                    record.add_antismash_domain(dom)
+                counts["exact_" + kind] += 1
+                for attr, value in (("evalue", evalue), ("score", score)):
+                    if value is not None and value == 0:
+                        counts[f"exact_{attr}_zero"] += 1
+                    if value is not None and value != 0 and (abs(value) < 1e-299 or abs(value) > 1e299):
+                        counts[f"exact_{attr}_extreme"] += 1
+            except Exception as exc:  # pylint: disable=broad-except
+                counts["gen_exact_" + type(exc).__name__] += 1
+
+
+PREPEPTIDE_CLASSES = [("lanthipeptide", "lanthipeptides"), ("thiopeptide", "thiopeptides"), ("lassopeptide", "lassopeptides"),
+                      ("sactipeptide", "sactipeptides")]
+
+
+def add_prepeptides(rng, record, n, counts, genes):
+    """ RiPP precursor peptides on genes of their own: forward strand, 1-4 exons separated by introns, leader / core /
+        tail boundaries inside an exon or exactly on an exon border, so that the introns fall into one, two or three
+        sections (leader and core both multi-exon, core and tail, ...).  Outside, said as generator rules: the reverse
+        strand (class C10-F68: the location comes back split at the section borders), precursors over the origin (C09's
+        F14), exons adjoining without an intron (merged when a border falls between them: C09 O1b), gene lengths that are
+        not a multiple of three, peptide_subclass None (class C10-F67; '' is drawn), scores / masses that the two- and
+        one-decimal formats do not keep """
+    from antismash.common.secmet.features import CDSFeature, Gene, Prepeptide
+    from antismash.common.secmet.locations import FeatureLocation as FL, CompoundLocation as CL
+    for k in range(rng.choice([0, 1, 1, 2])):
+        try:
+            exon_count = rng.choice([1, 2, 3, 3, 4])
+            la, co, ta = rng.choice([0, 3, 10]), rng.choice([1, 4, 10]), rng.choice([0, 2, 10])
+            total = 3 * (la + co + ta)
+            # exon lengths: cut the coding sequence at section borders or anywhere
+            cuts = set()
+            candidates = [3 * la, 3 * (la + co)] + [rng.randrange(1, total) for _ in range(3)]
+            rng.shuffle(candidates)
+            for c in candidates:
+                if 0 < c < total and len(cuts) < exon_count - 1:
+                    cuts.add(c)
+            bounds = [0] + sorted(cuts) + [total]
+            lengths = [b - a for a, b in zip(bounds, bounds[1:])]
+            span = total + 40 * len(lengths)
+            start = rng.randrange(0, n - span - 1)
+            parts, pos = [], start
+            for length in lengths:
+                parts.append(FL(pos, pos + length, 1))
+                pos += length + rng.choice([1, 7, 30])
+            location = parts[0] if len(parts) == 1 else CL(parts)
+            name = f"pre{k}"
+            translation = "M" + "A" * (total // 3 - 1)
+            record.add_cds_feature(CDSFeature(location, translation=translation, locus_tag=name))
+            if rng.random() < 0.5:
+                record.add_gene(Gene(location, locus_tag=name))
+            peptide_class, tool = rng.choice(PREPEPTIDE_CLASSES)
+            prepeptide = Prepeptide(location, peptide_class, "C" * co, name, tool,
+                                    peptide_subclass=rng.choice(["Class I", "Class-II", "Type III", "", "0"]),
+                                    score=rng.choice([0.0, -0.0, 0, 12.5, 7.25, -3.0, 26, 1e15]),
+                                    monoisotopic_mass=rng.choice([0.0, 1021.4, 0.5, 3000, 1e15]),
+                                    molecular_weight=rng.choice([0.0, 1022.1, 2.5, -0.0]),
+                                    alternative_weights=rng.choice([None, [], [1040.1, 1058.1], [0.0, 18.0]]),
+                                    leader="L" * la, tail="T" * ta)
+            record.add_cds_motif(prepeptide)
+            genes.append(record.get_cds_by_name(name))
+            counts["prepeptide"] += 1
+            counts[f"prepeptide_exons_{len(lengths)}"] += 1
+            sections = [(0, 3 * la), (3 * la, 3 * (la + co)), (3 * (la + co), total)]
+            multi = sum(1 for a, b in sections if any(a < c < b for c in cuts))
+            counts[f"prepeptide_sections_with_intron_inside_{multi}"] += 1
+            if not la:
+                counts["prepeptide_without_leader"] += 1
+            if not ta:
+                counts["prepeptide_without_tail"] += 1
+        except Exception as exc:  # pylint: disable=broad-except
+            counts["gen_prepeptide_" + type(exc).__name__] += 1
+
+
+def set_candidate_structures(rng, record, counts):
+    """ SMILES / polymer of candidate clusters (set by nrps_pks after candidate formation): None, the empty string (falsy
+        and written, the writer tests `is not None`), ordinary values with the characters SMILES use """
+    for cand in record.get_candidate_clusters():
+        if rng.random() < 0.5:
+            cand.smiles_structure = rng.choice(["", "CC(=O)O", "C[C@H](N)C(=O)O", "NC(C(C)C)C(=O)NC(CS)C(=O)O", "0"])
+            counts["candidate_smiles_" + ("empty" if not cand.smiles_structure else "set")] += 1
+        if rng.random() < 0.5:
+            cand.polymer = rng.choice(["", "(mal) + (ala - X)", "(ohmal - ccmal)", "0"])
+            counts["candidate_polymer_" + ("empty" if not cand.polymer else "set")] += 1
 
 
 # ---------------------------------------------------------------- (c'') generic features, alternative transcripts
@@ -1259,6 +1446,34 @@ def order_within_equal_keys(before, after, keys):
         all(keys.get(a) is not None and keys.get(a) == keys.get(b) for a, b in zip(before, after))
 
 
+# ---- type-exact canonical form of an attribute value: the comparison original vs re-read must tell None from 0.0, 0.0
+# from -0.0, 5 from 5.0, "" from None, [] from None (Python's == does not: 0 == 0.0 == -0.0 == False)
+
+def exact(value):
+    if value is None or isinstance(value, str):
+        return value
+    if isinstance(value, bool):
+        return f"bool:{value}"
+    if isinstance(value, int):
+        return f"int:{value}"
+    if isinstance(value, float):
+        return f"float:{value.hex()} ({value!r})"
+    if isinstance(value, (list, tuple)):
+        return [exact(v) for v in value]
+    if isinstance(value, dict):
+        return {k: exact(v) for k, v in value.items()}
+    return f"{type(value).__name__}:{value}"
+
+
+# every qualifier-backed attribute of AntismashFeature / Domain / PFAMDomain / AntismashDomain and its registered variants
+# (ModularDomain, TIGRDomain, RREDomain) / CDSMotif / Prepeptide (antismash/common/secmet/features/*.py, to_biopython /
+# from_biopython pairs)
+DOMAIN_ATTRIBUTES = ("locus_tag", "tool", "domain", "domain_id", "label", "database", "detection", "evalue", "score",
+                     "_translation", "created_by_antismash", "identifier", "version", "description", "specificity",
+                     "subtypes", "domain_subtype", "peptide_class", "peptide_subclass", "leader", "core", "tail",
+                     "monoisotopic_mass", "molecular_weight", "alternative_weights", "type")
+
+
 def notes_of(feature):
     return sorted(list(feature.notes) + list(feature._qualifiers.get("note") or []))  # pylint: disable=protected-access
 
@@ -1273,13 +1488,16 @@ def describe_record(record):
         out[f"protocluster {i + 1}"] = {
             "class": type(p).__name__, "location": str(p.location), "core_location": str(p.core_location), "tool": p.tool,
             "product": p.product, "category": p.product_category, "cutoff": p.cutoff, "neighbourhood": p.neighbourhood_range,
-            "detection_rule": p.detection_rule, "extra_qualifiers": getattr(p, "extra_qualifiers", None), "notes": notes_of(p)}
+            "detection_rule": p.detection_rule, "extra_qualifiers": getattr(p, "extra_qualifiers", None), "notes": notes_of(p),
+            "contig_edge": exact(p.contig_edge), "exact": exact([p.cutoff, p.neighbourhood_range, p.product_category, p.tool])}
     for i, s in enumerate(subs):
         out[f"subregion {i + 1}"] = {"class": type(s).__name__, "location": str(s.location), "tool": s.tool, "label": s.label,
-                                    "extra_qualifiers": getattr(s, "extra_qualifiers", None), "notes": notes_of(s)}
+                                    "extra_qualifiers": getattr(s, "extra_qualifiers", None), "notes": notes_of(s),
+                                    "contig_edge": exact(s.contig_edge), "exact": exact([s.tool, s.label])}
     for i, c in enumerate(cands):
         out[f"candidate {i + 1}"] = {"location": str(c.location), "kind": str(c.kind), "smiles": c.smiles_structure,
-                                    "polymer": c.polymer,
+                                    "polymer": c.polymer, "contig_edge": exact(c.contig_edge),
+                                    "exact": exact([c.smiles_structure, c.polymer]),
                                     "protoclusters": [index_by_identity(protos, p) + 1 for p in c.protoclusters]}
     for i, r in enumerate(record.get_regions()):
         out[f"region {i + 1}"] = {"location": str(r.location),
@@ -1305,10 +1523,11 @@ def describe_record(record):
             "parts": [(int(p.start), int(p.end), p.strand) for p in cds.location.parts],
             "location": str(cds.location), "translation": cds.translation, "product": cds.product, "protein_id": cds.protein_id,
             "locus_tag": cds.locus_tag, "gene": cds.gene, "notes": notes_of(cds),
-            "codon_start": cds._original_codon_start,  # pylint: disable=protected-access
+            "codon_start": exact(cds._original_codon_start),  # pylint: disable=protected-access
+            "transl_table": exact(cds.transl_table), "exact": exact([cds.product, cds.protein_id, cds.locus_tag, cds.gene]),
             "gene_functions": [(str(a.function), a.tool, a.product or None, a.description) for a in cds.gene_functions],
             "gene_function_texts": [str(a) for a in cds.gene_functions], "gene_kind": str(cds.gene_function),
-            "sec_met": [(d.name, d.evalue, d.bitscore, d.nseeds, d.tool) for d in (cds.sec_met or [])],
+            "sec_met": [exact([d.name, d.evalue, d.bitscore, d.nseeds, d.tool]) for d in (cds.sec_met or [])],
             "modules": [str(m.location) for m in cds.modules]}
     for g in record.get_genes():
         out[f"gene {g.get_name()} {g.location}"] = {"location": str(g.location), "name": g.get_name(), "notes": notes_of(g),
@@ -1317,15 +1536,22 @@ def describe_record(record):
     for kind, items in (("PFAM_domain", record.get_pfam_domains()), ("aSDomain", record.get_antismash_domains()),
                         ("CDS_motif", record.get_cds_motifs())):
         for d in items:
-            entry = {"location": str(d.location), "protein_location": str(d.protein_location), "notes": notes_of(d),
-                     "crosses_origin": d.crosses_origin()}
-            for attr in ("locus_tag", "tool", "domain", "domain_id", "label", "identifier", "description", "version",
-                         "specificity", "domain_subtypes"):
+            entry = {"class": type(d).__name__, "location": str(d.location), "protein_location": str(d.protein_location),
+                     "notes": notes_of(d), "crosses_origin": d.crosses_origin(),
+                     "parts": [(int(p.start), int(p.end), p.strand) for p in d.location.parts]}
+            # EVERY qualifier-backed attribute, type-exactly (exact(): None is not 0.0, 0.0 is not -0.0, 5 is not 5.0,
+            # "" is not None, [] is not None)
+            for attr in DOMAIN_ATTRIBUTES:
                 try:
                     val = getattr(d, attr)
                 except (AttributeError, ValueError):
                     continue
-                entry[attr] = list(val) if isinstance(val, (list, tuple)) else val
+                entry[attr.lstrip("_")] = exact(val)
+            entry["asf"] = list(d.asf.hits)
+            # leftover qualifiers, but for the two that are internal bookkeeping of the reader (tool=antismash is how
+            # created_by_antismash travels; a PFAM domain's db_xref keeps the GO ids the GOQualifier writes again)
+            entry["leftover_qualifiers"] = {k: exact(v) for k, v in d._qualifiers.items()  # pylint: disable=protected-access
+                                            if k not in ("note", "tool", "db_xref")}
             if kind == "PFAM_domain":
                 # None (no ontologies) is not the same as an empty qualifier: the latter is written as gene_ontologies=[]
                 entry["gene_ontologies"] = None if d.gene_ontologies is None else dict(d.gene_ontologies.go_entries)
@@ -1461,13 +1687,18 @@ def first_write_stage(chk, built, counts, listed):
                 problems.append(("second output differs from the first (not a fixed point)",
                                  ("feature count", len(canon0), len(canon1)), None))
             swap_only = order_only_within_equal_cds_keys(canon0, canon1, keys)
+            # class C10-F70: the two outputs hold the same features with the same qualifiers in another order AND the
+            # record holds an intransitive triple of the mixed comparison (Gallina class test on types and locations)
+            mixed_only = (not swap_only) and listed.get(KNOWN_CLASS70) and same_features_other_order(canon0, canon1) \
+                and in_mixed_order_class(built)
             for a, b in zip(canon0, canon1):
                 if a == b:
                     continue
                 qkeys = sorted(k for k in set(a[2]) | set(b[2]) if a[2].get(k) != b[2].get(k))
                 problems.append(("second output differs from the first (not a fixed point)",
                                  (a[0], a[1], b[0], b[1], qkeys, [repr(a[2].get(k))[:120] for k in qkeys],
-                                  [repr(b[2].get(k))[:120] for k in qkeys]), KNOWN_CLASS3 if swap_only else None))
+                                  [repr(b[2].get(k))[:120] for k in qkeys]),
+                                 KNOWN_CLASS3 if swap_only else KNOWN_CLASS70 if mixed_only else None))
         except RecursionError:
             areas = list(built.get_subregions()) + list(built.get_protoclusters())
             problems.append(("reload does not terminate (RecursionError)",
@@ -1572,20 +1803,44 @@ def whole_record_stream(chk, total, known_listed, known2_listed, known3_listed=F
     rng = chk.rng
     counts = collections.Counter()
     setup_failures = []
+    # corpus, run first: the minimised member of class C10-F70 goes through the same stage as every generated record (it
+    # is excused there only while the class is listed; no random numbers are drawn)
+    try:
+        first_write_stage(chk, mixed_order_witness_record(), counts, listed or {})
+        counts["corpus_mixed_order_witness_record"] += 1
+    except Exception as exc:  # pylint: disable=broad-except
+        chk.violation("counterexample", f"the corpus record of class {KNOWN_CLASS70} cannot be written: {type(exc).__name__}: {exc}"[:300],
+                      {"theorem_or_correspondence": "whole-record round trip (first write), corpus"})
     for _ in range(total):
+        state_before = rng.getstate()
+        violations_before = len(chk.violations)
         built = gen_whole_record(rng, counts)
         try:
             built.create_candidate_clusters()
             built.create_regions()
+            set_candidate_structures(rng, built, counts)
         except Exception as exc:  # pylint: disable=broad-except
             counts["setup_" + type(exc).__name__] += 1   # formation / region defects belong to C05 / C06
             setup_failures.append(f"{type(exc).__name__}: {exc}"[:200])
             continue
         kind = "circular" if built.is_circular() else "linear"
+        if len(list(built.all_features)) >= 64:
+            counts["records_with_64_or_more_features"] += 1          # sorted() beyond binary insertion (Timsort runs)
+            if built.is_circular() and any(src.location.start == 0 and src.location.end == len(built.seq)
+                                           for src in built.get_sources()) \
+                    and any(len(a.location.parts) > 1 for a in built.get_protoclusters()) \
+                    and any(f.crosses_origin() for f in list(built.get_generics()) + list(built.get_cds_features())):
+                counts["records_64_plus_with_source_origin_area_and_origin_feature"] += 1   # where C10-F70 shows
         # stage 0: the freshly built record against its reloaded self (fields, first file against second file)
         outline = None
         try:
             first_write_stage(chk, built, counts, listed or {})
+            if len(chk.violations) > violations_before and os.environ.get("C10_DUMP_STATE"):
+                # debugging aid: the generator state from which the reported record can be rebuilt (gen_whole_record)
+                import pickle
+                with open(os.environ["C10_DUMP_STATE"] + f".{counts['dumped_states']}", "wb") as handle:
+                    pickle.dump(state_before, handle)
+                counts["dumped_states"] += 1
         except Exception as exc:  # pylint: disable=broad-except
             chk.violation("counterexample", f"a generated record cannot be written: {type(exc).__name__}: {exc}"[:300],
                           {"theorem_or_correspondence": "whole-record round trip (first write)"})
@@ -1651,6 +1906,9 @@ def whole_record_stream(chk, total, known_listed, known2_listed, known3_listed=F
                 continue
             if known2_listed and has_mutually_less_areas(record):
                 counts[path + "_differs_in_known_class_" + KNOWN_CLASS2] += 1
+                continue
+            if (listed or {}).get(KNOWN_CLASS70) and order_only and in_mixed_order_class(record):
+                counts[path + "_feature_order_differs_in_known_class_" + KNOWN_CLASS70] += 1
                 continue
             chk.violation("counterexample", f"whole-record {path} round trip: {problem[0]}",
                           {"theorem_or_correspondence": f"whole-record {path} round trip", "details": repr(problem[1])[:1500],
@@ -1959,6 +2217,424 @@ def gen_cds_set(rng, n):
     return out[:6]
 
 
+# ---------------------------------------------------------------- (f) optional qualifiers against the model (fn 16-21)
+
+KNOWN_CLASS66 = "empty_string_attribute_read_as_none"       # C10-F66
+KNOWN_CLASS67 = "prepeptide_subclass_none_written_valueless"  # C10-F67
+KNOWN_CLASS68 = "reverse_prepeptide_location_split"          # C10-F68
+KNOWN_CLASS69 = "identifier_version_zero_dropped"            # C10-F69
+
+# kinds of fn 16 / 17 (the "is not None" pattern; the text form is Python's own formatting of the value - third party -
+# computed by the harness, the model moves the text)
+OPTQ_KINDS = ["aSDomain.evalue", "aSDomain.score", "PFAM_domain.evalue", "PFAM_domain.score", "CDS_motif.evalue",
+              "CDS_motif.score", "cand_cluster.SMILES", "cand_cluster.polymer"]
+# kinds of fn 18 / 19 (truthiness pattern)
+TRUTHY_KINDS = ["aSDomain.database", "aSDomain.detection", "PFAM_domain.database", "CDS_motif.detection", "aSDomain.label",
+                "CDS_motif.label"]
+QUALIFIER_KEY = {"evalue": "evalue", "score": "score", "SMILES": "SMILES", "polymer": "polymer", "database": "database",
+                 "detection": "detection", "label": "label"}
+
+
+def enc_opt_str(value):
+    return [0] if value is None else [1] + enc_str(value)
+
+
+def enc_qual(values):
+    """ a qualifier as the dictionary holds it: None (absent) or the list of its values """
+    if values is None:
+        return [0]
+    out = [1, len(values)]
+    for v in values:
+        out += enc_str(str(v))
+    return out
+
+
+def make_domain_feature(kind):
+    from antismash.common.secmet.features import AntismashDomain, CDSMotif, PFAMDomain
+    from antismash.common.secmet.locations import FeatureLocation as FL
+    if kind.startswith("aSDomain"):
+        dom = AntismashDomain(FL(9, 39, 1), "tool", FL(3, 13), "g", domain="D")
+    elif kind.startswith("PFAM_domain"):
+        dom = PFAMDomain(FL(9, 39, 1), "desc", FL(3, 13), "PF00001.1", "tool", "g")
+    else:
+        dom = CDSMotif(FL(9, 39, 1), "g", FL(3, 13), tool="tool")
+    dom.domain_id = "d1"
+    return dom
+
+
+def make_candidate():
+    from antismash.common.secmet.features import Protocluster
+    from antismash.common.secmet.locations import FeatureLocation as FL
+    record = plain_record()
+    record.add_protocluster(Protocluster(FL(20, 30, 1), FL(10, 40, 1), tool="t", product="a", cutoff=1, neighbourhood_range=10,
+                                         detection_rule="r"))
+    record.create_candidate_clusters()
+    return record.get_candidate_clusters()[0]
+
+
+def number_text(attr, value):
+    """ the text form the writer gives a float attribute (Python's formatting: third party) """
+    return f"{float(value):.2E}" if attr == "evalue" else str(float(value))
+
+
+def real_optq_write(kind, value):
+    """ the qualifier the real class writes for the attribute value: (values list or None, re-read attribute) """
+    owner, attr = kind.split(".")
+    if owner == "cand_cluster":
+        cand = make_candidate()
+        if attr == "SMILES":
+            cand.smiles_structure = value
+        else:
+            cand.polymer = value
+        bio = cand.to_biopython()[0]
+        return bio.qualifiers.get(attr), None
+    dom = make_domain_feature(kind)
+    if value is not None:
+        setattr(dom, attr, value)
+    bio = dom.to_biopython()[0]
+    back = type(dom).from_biopython(bio)
+    return bio.qualifiers.get(QUALIFIER_KEY[attr]), getattr(back, attr)
+
+
+def real_optq_read(kind, values):
+    """ the attribute the real reader takes from a feature whose qualifier is absent (None) or holds `values` """
+    owner, attr = kind.split(".")
+    dom = make_domain_feature(kind)
+    bio = dom.to_biopython()[0]
+    bio.qualifiers.pop(QUALIFIER_KEY[attr], None)
+    if values is not None:
+        bio.qualifiers[QUALIFIER_KEY[attr]] = list(values)
+    return getattr(type(dom).from_biopython(bio), attr)
+
+
+def optional_qualifier_cases(chk, total, empty_listed):
+    """ fn 16 / 17: attributes written under `is not None` (evalue, score of every domain class; SMILES, polymer of
+        candidate clusters) - the qualifier the real writer produces for None, 0.0, -0.0, 0, the smallest / largest floats,
+        '' and ordinary values against the model, the implementation's output judged by the Gallina verdict optq_spec_ok
+        (fn 116), and the real reader on present / absent / empty qualifiers; the property on the real code: the
+        attribute re-read from the written feature is the attribute, type-exactly.  fn 18 / 19: the string attributes
+        written under a truthiness test (database, detection, label), '' included (class C10-F66 while listed).
+        fn 20 / 21: codon_start from _original_codon_start (0 = codon_start 1 is falsy). """
+    from Bio.SeqFeature import SeqFeature
+    from antismash.common.secmet.features import Feature
+    from antismash.common.secmet.locations import FeatureLocation as FL
+    rng = chk.rng
+    cases, outs = [], []
+    reported = {"num": 0, "str": 0, "codon": 0}
+    number_pool = [v for v in EVALUE_POOL + SCORE_POOL if v is not None]
+    text_pool = [t for t in TEXT_POOL if t is not None] + ["", "", " ", "0"]
+    label_pool = [t for t in LABEL_POOL if t is not None] + ["", ""]
+    for _ in range(total):
+        r = rng.random()
+        nontrivial = True
+        try:
+            if r < 0.35:
+                kind_index = rng.randrange(len(OPTQ_KINDS))
+                kind = OPTQ_KINDS[kind_index]
+                attr = kind.split(".")[1]
+                if attr in ("SMILES", "polymer"):
+                    value = rng.choice([None, "", "CC(=O)O", "0", "(mal) + (ala - X)", 'a "b"'])
+                    text = value
+                else:
+                    value = rng.choice([None, None] + number_pool)
+                    if attr == "evalue" and not kept_by_evalue_format(value):
+                        continue
+                    text = None if value is None else number_text(attr, value)
+                written, back = real_optq_write(kind, value)
+                flat = [PROP, 16, kind_index] + enc_opt_str(text)
+                out = enc_qual(written)
+                chk.count("optq_write_" + kind)
+                if value is not None and not value:
+                    chk.count("optq_write_falsy_value")
+                if attr not in ("SMILES", "polymer"):
+                    expect = None if value is None else float(value)
+                    if exact(back) != exact(expect) and reported["num"] < 3:
+                        reported["num"] += 1
+                        chk.violation("counterexample", f"{kind} = {value!r} comes back as {back!r} from the feature the real "
+                                      f"class writes (qualifier: {written!r})",
+                                      {"theorem_or_correspondence": "C10_optional_qualifier_codec / AntismashFeature.to_biopython "
+                                       "-> from_biopython", "function": 16, "flat": flat, "implementation": out,
+                                       "input": {"attribute": kind, "value": repr(value), "text_form": text},
+                                       "written_qualifier": written, "re_read": repr(back)})
+                nontrivial = value is not None
+            elif r < 0.50:
+                kind_index = rng.randrange(6)
+                kind = OPTQ_KINDS[kind_index]
+                attr = kind.split(".")[1]
+                choice = rng.random()
+                if choice < 0.25:
+                    values = None
+                elif choice < 0.32:
+                    values = []
+                else:
+                    value = rng.choice(number_pool)
+                    if attr == "evalue" and not kept_by_evalue_format(value):
+                        continue
+                    values = [number_text(attr, value)] + (["1.0"] if rng.random() < 0.1 else [])
+                flat = [PROP, 17, kind_index] + enc_qual(values)
+                try:
+                    got = real_optq_read(kind, values)
+                    out = [0] + enc_opt_str(None if got is None else number_text(attr, got))
+                except Exception as exc:  # pylint: disable=broad-except
+                    out = [1, err_code(exc)]
+                chk.count("optq_read_" + kind)
+            elif r < 0.70:
+                kind_index = rng.randrange(len(TRUTHY_KINDS))
+                kind = TRUTHY_KINDS[kind_index]
+                attr = kind.split(".")[1]
+                value = rng.choice([None] + (label_pool if attr == "label" else text_pool))
+                written, back = real_optq_write(kind, value)
+                flat = [PROP, 18, kind_index] + enc_opt_str(value)
+                out = enc_qual(written)
+                chk.count("truthy_write_" + kind)
+                if value == "":
+                    chk.count("truthy_write_empty_string_class_" + KNOWN_CLASS66)
+                    if back is not None or written is not None:
+                        chk.count("truthy_write_empty_string_behaviour_changed")
+                    if not empty_listed and back != value and reported["str"] < 3:
+                        reported["str"] += 1
+                        chk.violation("counterexample", f"{kind} = '' comes back as {back!r} (class {KNOWN_CLASS66}, not "
+                                      "listed as known)", {"theorem_or_correspondence": "C10_truthy_string_qualifier_empty_refuted",
+                                                           "function": 18, "flat": flat, "implementation": out,
+                                                           "input": {"attribute": kind, "value": value}})
+                elif back != value and reported["str"] < 3:
+                    reported["str"] += 1
+                    chk.violation("counterexample", f"{kind} = {value!r} comes back as {back!r} from the feature the real class "
+                                  f"writes (qualifier: {written!r})",
+                                  {"theorem_or_correspondence": "C10_truthy_string_qualifier_partial / AntismashFeature.to_biopython "
+                                   "-> from_biopython", "function": 18, "flat": flat, "implementation": out,
+                                   "input": {"attribute": kind, "value": value}, "written_qualifier": written, "re_read": back})
+                nontrivial = value is not None
+            elif r < 0.80:
+                kind_index = rng.randrange(4)            # database / detection: the reader takes the text as it is
+                kind = TRUTHY_KINDS[kind_index]
+                choice = rng.random()
+                values = None if choice < 0.2 else [] if choice < 0.27 else [rng.choice(text_pool)] + (["x"] if rng.random() < 0.1 else [])
+                flat = [PROP, 19, kind_index] + enc_qual(values)
+                try:
+                    out = [0] + enc_opt_str(real_optq_read(kind, values))
+                except Exception as exc:  # pylint: disable=broad-except
+                    out = [1, err_code(exc)]
+                chk.count("truthy_read_" + kind)
+            elif r < 0.92:
+                value = rng.choice([None, 0, 0, 1, 2])
+                feature = Feature(FL(9, 99, rng.choice([1, -1])), "misc_feature")
+                feature._original_codon_start = value  # pylint: disable=protected-access
+                bio = feature.to_biopython()[0]
+                written = bio.qualifiers.get("codon_start")
+                flat = [PROP, 20] + ([0] if value is None else [1, value])
+                out = enc_qual(written)
+                chk.count("codon_start_write")
+                nontrivial = value is not None
+            else:
+                choice = rng.random()
+                values = None if choice < 0.25 else [] if choice < 0.3 else [rng.choice(["1", "1", "2", "3"])]
+                flat = [PROP, 21] + enc_qual(values)
+                quals = {"note": ["n"]}
+                if values is not None:
+                    quals["codon_start"] = list(values)
+                try:
+                    got = Feature.from_biopython(SeqFeature(FL(9, 99, 1), type="misc_feature", qualifiers=quals))
+                    start = got._original_codon_start  # pylint: disable=protected-access
+                    out = [0] + ([0] if start is None else [1, start])
+                except Exception as exc:  # pylint: disable=broad-except
+                    out = [1, err_code(exc)]
+                chk.count("codon_start_read")
+        except Exception as exc:  # pylint: disable=broad-except
+            chk.count("optq_case_failed_" + type(exc).__name__)
+            if reported["codon"] < 2:
+                reported["codon"] += 1
+                chk.violation("counterexample", f"an optional qualifier cannot be written: {type(exc).__name__}: {exc}"[:300],
+                              {"theorem_or_correspondence": "optional qualifier stream (fn 16-21)"})
+            continue
+        cases.append(flat)
+        outs.append(out)
+        chk.note_case(flat, nontrivial, {"function": flat[1], "payload": flat[2:40], "implementation": out[:40]})
+    return cases, outs
+
+
+def witness66_reproduces():
+    """ an aSDomain whose database (or label, detection) is the empty string comes back with None """
+    from antismash.common.secmet.features import AntismashDomain
+    dom = make_domain_feature("aSDomain.database")
+    dom.database = ""
+    back = AntismashDomain.from_biopython(dom.to_biopython()[0])
+    return back.database is None
+
+
+def prepeptide_record(location, **kwargs):
+    from antismash.common.secmet.features import CDSFeature, Prepeptide
+    record = plain_record()
+    record.add_cds_feature(CDSFeature(location, translation="M" * 30, locus_tag="preA"))
+    record.add_cds_motif(Prepeptide(location, "sactipeptide", "C" * 10, "preA", "sactipeptides", leader="L" * 10, tail="T" * 10,
+                                    **kwargs))
+    return record
+
+
+def witness67_reproduces():
+    """ a prepeptide without peptide_subclass (every sactipeptide) is written with a value-less /predicted_class, re-read
+        from GenBank with peptide_subclass '' (from JSON with None) and then written as /predicted_class="" """
+    from antismash.common.secmet.locations import FeatureLocation as FL
+    record = prepeptide_record(FL(90, 180, 1))
+    _bio, text1, reloaded = roundtrip_genbank(record)
+    _bio2, text2 = write_genbank(reloaded)
+    return reloaded.get_cds_motifs()[0].peptide_subclass == "" and features_text(text1) != features_text(text2)
+
+
+def witness68_reproduces():
+    """ a reverse-strand prepeptide with leader and tail on the single-exon gene [90:180](-) comes back with the location
+        join{[150:180](-), [120:150](-), [90:120](-)} """
+    from antismash.common.secmet.locations import FeatureLocation as FL
+    record = prepeptide_record(FL(90, 180, -1), peptide_subclass="Class I")
+    _bio, _text, reloaded = roundtrip_json(record)
+    return str(reloaded.get_cds_motifs()[0].location) == "join{[150:180](-), [120:150](-), [90:120](-)}"
+
+
+def witness69_reproduces():
+    """ PFAM identifier PF00001.0: version 0 comes back as None; RREFam005.0: the record cannot be read back """
+    from antismash.common.secmet.features import CDSFeature, PFAMDomain
+    from antismash.common.secmet.locations import FeatureLocation as FL
+    from antismash.modules.rrefinder.rre_domain import RREDomain
+    record = plain_record()
+    record.add_cds_feature(CDSFeature(FL(9, 39, 1), translation="M" * 10, locus_tag="g"))
+    dom = PFAMDomain(FL(9, 21, 1), "desc", FL(0, 4), "PF00001.0", "tool", "g")
+    dom.domain_id = "pf1"
+    record.add_pfam_domain(dom)
+    _bio, _text, reloaded = roundtrip_json(record)
+    pfam_lost = dom.version == 0 and reloaded.get_pfam_domains()[0].version is None
+    rre = RREDomain(FL(9, 21, 1), "desc", FL(0, 4), "RREFam005.0", "g", domain="X")
+    rre.domain_id = "rre1"
+    record.add_antismash_domain(rre)
+    try:
+        roundtrip_json(record)
+        rre_lost = False
+    except Exception:  # pylint: disable=broad-except
+        rre_lost = True
+    return pfam_lost and rre_lost
+
+
+KNOWN_CLASS70 = "mixed_order_not_transitive"                 # C10-F70
+
+
+def gen_mixed_feature(rng, n):
+    """ (kind, parts): kind 2 collection, 1 source, 0 plain feature; locations around the origin of a ring of n, the
+        whole record, nested and ordinary ones """
+    kind = rng.choice([0, 0, 1, 2, 2])
+    r = rng.random()
+    strand = 1 if kind else rng.choice([1, -1])
+    if r < 0.2 or (kind == 1 and r < 0.6):
+        parts = [(0, n, strand)]
+    elif r < 0.6:
+        a, b = rng.choice([3, 40, 43, 125, 300]), rng.choice([1, 19, 40, 136, 300])
+        parts = [(n - a, n, strand), (0, b, strand)]
+        if kind == 0 and rng.random() < 0.3:
+            parts.insert(0, (n - a - 30, n - a - 10, strand))
+        if strand == -1:
+            parts.reverse()
+    else:
+        start = rng.choice([0, 0, 10, 100, n - 125, n - 40, rng.randrange(0, n - 1)])
+        parts = [(start, min(n, start + rng.choice([1, 19, 40, 125, 300, n])), strand)]
+    return kind, parts
+
+
+def real_mixed_lt(n, left, right):
+    from antismash.common.secmet.features import Feature, SubRegion
+    from antismash.common.secmet.features.source import Source
+
+    def make(kind, parts):
+        location = make_loc(parts)
+        if kind == 2:
+            return SubRegion(location, tool="t")
+        if kind == 1:
+            return Source(location)
+        return Feature(location, "misc_feature")
+    try:
+        return [int(make(*left) < make(*right))]
+    except ValueError:
+        return [0]          # a comparison that raises counts as "not less" (mixed_lt)
+
+
+def mixed_order_cases(chk, total):
+    """ fn 23: one comparison `a < b` of the mixed list (collection / source / plain feature, real __lt__ methods) against
+        mixed_lt; fn 22 is evaluated on the triple (a, b, c) of each case against the three real comparisons """
+    rng = chk.rng
+    cases, outs = [], []
+    n = 900
+    for _ in range(total):
+        left, right = gen_mixed_feature(rng, n), gen_mixed_feature(rng, n)
+        flat = [PROP, 23, left[0]] + flat_parts(left[1]) + [right[0]] + flat_parts(right[1])
+        out = real_mixed_lt(n, left, right)
+        cases.append(flat)
+        outs.append(out)
+        chk.count("mixed_lt_%s_%s" % ("csp"[2 - left[0]] if left[0] else "p", "csp"[2 - right[0]] if right[0] else "p"))
+        if out == [1]:
+            chk.count("mixed_lt_true")
+        chk.note_case(flat, len(left[1]) > 1 or len(right[1]) > 1, {"function": 23, "payload": flat[2:40], "implementation": out})
+    return cases, outs
+
+
+def enc_mixed_features(record):
+    """ the record's features as the comparison on the mixed list sees them: (kind, location) in all_features order;
+        kind 2 collection (CDSCollection.__lt__), 1 source, 0 any other feature (Feature.__lt__) """
+    from antismash.common.secmet.features.cdscollection import CDSCollection
+    feats = list(record.all_features)
+    out = [len(feats)]
+    for f in feats:
+        kind = 2 if isinstance(f, CDSCollection) else 1 if f.type == "source" else 0
+        out += [kind] + enc_loc(f.location)
+    return out
+
+
+def in_mixed_order_class(record):
+    """ the class test of C10-F70, evaluated in Gallina (fn 22, has_bad_triple; C10_mixed_class_test_sound) on the record's
+        feature types and locations: the record holds features a, b, c - collections and plain features both among them -
+        with a < b, b < c and not a < c under the modelled Feature.__lt__ / CDSCollection.__lt__ """
+    try:
+        return common.run_driver([[PROP, 22] + enc_mixed_features(record)])[0] == [1]
+    except Exception:  # pylint: disable=broad-except
+        return False
+
+
+def same_features_other_order(canon0, canon1):
+    """ the second feature list is a rearrangement of the first: same features, same qualifiers, another order """
+    return len(canon0) == len(canon1) and canon0 != canon1 and sorted(map(repr, canon0)) == sorted(map(repr, canon1))
+
+
+def mixed_order_witness_record():
+    """ circular, 900 bases: source [0:900], 62 misc_features [150+5i:153+5i] added from the last to the first, the
+        sig_peptide join{[860:900](+), [0:40](+)}, the protocluster join{[775:900](+), [0:19](+)}: 65 features """
+    from Bio.SeqFeature import SeqFeature
+    from antismash.common.secmet import Record
+    from antismash.common.secmet.features import Protocluster
+    from antismash.common.secmet.features.source import Source
+    from antismash.common.secmet.locations import FeatureLocation as FL, CompoundLocation as CL
+    record = Record("ACGT" * 225)
+    record.id = record.name = "rec1"
+    record.add_annotation("topology", "circular")
+    record.add_annotation("molecule_type", "DNA")
+    record.add_feature(Source(FL(0, 900, 1)))
+    for i in reversed(range(62)):
+        record.add_biopython_feature(SeqFeature(FL(150 + 5 * i, 153 + 5 * i, 1), type="misc_feature",
+                                                qualifiers={"note": [f"uid={i}"]}))
+    record.add_biopython_feature(SeqFeature(CL([FL(860, 900, 1), FL(0, 40, 1)]), type="sig_peptide",
+                                            qualifiers={"note": ["uid=g"]}))
+    location = CL([FL(775, 900, 1), FL(0, 19, 1)])
+    record.add_protocluster(Protocluster(location, location, tool="t", product="prodA", cutoff=20, neighbourhood_range=0,
+                                         detection_rule="a and b"))
+    return record
+
+
+def witness70_reproduces():
+    """ circular record of 900 bases with the source [0:900], 62 small misc_features, the sig_peptide
+        join{[860:900](+), [0:40](+)} and the protocluster join{[775:900](+), [0:19](+)} (65 features): the first output
+        starts source, protocluster, proto_core, sig_peptide, the output of the re-read record protocluster, proto_core,
+        sig_peptide, source - same features, another order (GenBank and JSON) """
+    record = mixed_order_witness_record()
+    bio1, _text, reloaded = roundtrip_json(record)
+    first, second = bio_canon(bio1), bio_canon(reloaded.to_biopython())
+    return same_features_other_order(first, second) and in_mixed_order_class(record)
+
+
 # ---------------------------------------------------------------- known finding
 
 def known_entry(cls):
@@ -2155,7 +2831,29 @@ RULE = ("(a) codec: text locations with all three position kinds, four strand sp
         "orders; the stored list must be a fixed point of re-adding whatever the keys); every fn 14 case is also read as a "
         "record with a second feature, a CDS and - after reading - two sub-regions, as its own type and as CDS / CDS_motif: "
         "refused with SecmetInvalidInputError or written without an exception (C10-F65 repaired); non-trivial = more than "
-        "one part / more than one CDS.  Regression corpus also holds the witnesses of C10-F47 and C10-F65.")
+        "one part / more than one CDS.  Regression corpus also holds the witnesses of C10-F47 and C10-F65.  (f) optional "
+        "qualifiers against the model: evalue / score of aSDomain, PFAM_domain, CDS_motif and SMILES / polymer of a candidate "
+        "cluster written by the real classes for None, 0.0, -0.0, 0, 5 (int), 5e-324, 1e-300, 1e300 and ordinary values (e-values: "
+        "only values the two-decimal scientific format keeps), read back type-exactly (None is not 0.0, 0.0 is not -0.0), and the "
+        "real reader on absent / present / empty qualifiers; database / detection / label (truthiness pattern) incl. '' (class "
+        "C10-F66), quotes, texts longer than a GenBank line; codon_start from _original_codon_start None / 0 / 1 / 2; the "
+        "implementation's written qualifier is judged by the Gallina verdicts optq_spec_ok / truthy_spec_ok.  Whole records "
+        "additionally carry 1-3 domain annotations per gene of every class the reader distinguishes (PFAMDomain, "
+        "AntismashDomain, ModularDomain, TIGRDomain, RREDomain, CDSMotif) with evalue, score, label, database, detection, "
+        "translation, ASF hits, subtypes, specificity, notes drawn from pools of falsy-but-valid and awkward values, 0-2 "
+        "prepeptides (four classes; forward strand; 1-4 exons with the introns in one, two or three of leader / core / tail; "
+        "with and without leader / tail; subclass '' / '0' / with '-'; scores and masses 0.0, -0.0, integers, 1e15) and "
+        "candidate clusters with SMILES / polymer None, '' or set; every qualifier-backed attribute is compared type-exactly "
+        "between the built record and its re-read self.  Generator rules (outside, recorded as classes with replayed "
+        "witnesses): '' for label / database / detection in whole records (C10-F66), peptide_subclass None (C10-F67), "
+        "reverse-strand prepeptides (C10-F68), identifier versions 0 (C10-F69); labels and ids without blanks (the reader "
+        "removes blanks on purpose); prepeptide genes not over the origin, exons not adjoining, length a multiple of 3; "
+        "e-values / prepeptide scores / masses only as exact as their formats (.2E, .2f, .1f).  (g) the comparison on the mixed "
+        "feature list: `a < b` of real Feature / Source / SubRegion objects (whole record, over the origin on both strands, "
+        "nested, ordinary locations on a ring of 900) against mixed_lt (fn 23); class C10-F70: a whole record whose second "
+        "output differs from the first ONLY in the order of the same features is excused while the class is listed and the "
+        "Gallina class test has_bad_triple (fn 22) holds for the record's (kind, location) list; records of 64 and more "
+        "features are counted.")
 
 
 def run(chk):
@@ -2189,6 +2887,22 @@ def run(chk):
                                     describe=lambda flat: {"function": flat[1], "payload": flat[2:]},
                                     label="feature locations through Record.from_biopython / CDS order through add_cds_feature")
     chk.crosscheck_vm(r_cases, r_model, k=60 if quick else 400)
+
+    # (f) optional qualifiers: written iff not None (evalue, score, SMILES, polymer, codon_start), truthiness pattern of
+    # the string attributes
+    entry66 = known_entry(KNOWN_CLASS66)
+    o_cases, o_outs = optional_qualifier_cases(chk, 2500 if quick else 30000, entry66 is not None)
+    o_model = common.correspondence(chk, o_cases, o_outs, spec_fn_offset=100,
+                                    describe=lambda flat: {"function": flat[1], "payload": flat[2:]},
+                                    label="optional qualifiers (evalue / score / SMILES / polymer / codon_start written iff not "
+                                          "None; database / detection / label written iff truthy)")
+    chk.crosscheck_vm(o_cases, o_model, k=60 if quick else 400)
+
+    # (g) the comparison on the mixed list of collections and plain features (class test of C10-F70)
+    m_cases, m_outs = mixed_order_cases(chk, 1500 if quick else 15000)
+    m_model = common.correspondence(chk, m_cases, m_outs, describe=lambda flat: {"function": flat[1], "payload": flat[2:]},
+                                    label="Feature.__lt__ / CDSCollection.__lt__ on the mixed feature list")
+    chk.crosscheck_vm(m_cases, m_model, k=40 if quick else 200)
 
     # (b) skeletons
     total = 6000 if quick else 60000
@@ -2270,7 +2984,7 @@ def run(chk):
 
     # (c) whole records
     listed = {KNOWN_CLASS: known_listed, KNOWN_CLASS2: entry2 is not None, KNOWN_CLASS3: entry3 is not None,
-              KNOWN_CLASS5: entry5 is not None}
+              KNOWN_CLASS5: entry5 is not None, KNOWN_CLASS70: known_entry(KNOWN_CLASS70) is not None}
     whole_record_stream(chk, 250 if quick else 4000, known_listed, entry2 is not None, entry3 is not None, listed)
 
     if known_listed and reproduces(witness_reproduces):
@@ -2290,6 +3004,21 @@ def run(chk):
         chk.known(entry3["what_fails"])
     if entry5 is not None and reproduces(witness5_reproduces):
         chk.known(entry5["what_fails"])
+    # findings of the fourth round (falsy but valid values, prepeptides): the generators keep out of these classes (said in
+    # RULE), the recorded witnesses are replayed; a witness of a class that is NOT listed is a counterexample
+    for cls, witness in ((KNOWN_CLASS66, witness66_reproduces), (KNOWN_CLASS67, witness67_reproduces),
+                         (KNOWN_CLASS68, witness68_reproduces), (KNOWN_CLASS69, witness69_reproduces),
+                         (KNOWN_CLASS70, witness70_reproduces)):
+        found = known_entry(cls)
+        chk.evaluations += 1
+        if not reproduces(witness):
+            continue
+        if found is not None:
+            chk.known(found["what_fails"])
+        else:
+            chk.violation("counterexample", f"class {cls} (not listed as known): " + (witness.__doc__ or "").strip(),
+                          {"theorem_or_correspondence": "whole-record round trip (real code), witness " + witness.__name__,
+                           "class": cls, "input": (witness.__doc__ or "").strip()})
     # C10-F65 (unsortable_exon_order_accepted) and C10-F47 (equal_key_genes_order) are repaired: their witnesses run in the
     # regression corpus, the read-path stream checks "accepted on reading => can be written" on every case and the CDS
     # order stream checks the fixed point on every list, equal keys included; nothing is excused for either class
